@@ -146,3 +146,196 @@ Proof.
   - rewrite HFc, HJ. unfold Inv1. rewrite HFc, HBc. repeat split; try assumption; try lia.
   - rewrite HFc, HJ, HF. cbn. rewrite app_nil_r. unfold Inv1. rewrite HFc. repeat split; try lia.
 Qed.
+
+(* ---------- one input call of the caller, under any schedule ---------- *)
+Definition OpRel (t : Z) (s0 : list Z * Z) (n dir : Z) (s : mt) (r : Z) : Prop :=
+  0 <= r <= n /\ Inv1 t s /\
+  ( sfeed t (J s, 0) (filled s) = sfeed t s0 (n - r)
+    \/ (r = 0 /\ dir <> e_continue /\ filled s = 0 /\ (J s, 0) = sflush (sfeed t s0 n)) ).
+
+Lemma run_op_rel : forall t envs cl op n dir s r s' rest, 0 < t -> 0 <= op ->
+  OpRel t (cl, op) n dir s r -> run_op t s r dir envs = Some (s', rest) ->
+  OpRel t (cl, op) n dir s' 0 /\ op_done s' 0 dir = true.
+Proof.
+  intros t envs cl op n dir. induction envs as [|e envs IH]; intros s r s' rest Ht Hop HR H; [discriminate|].
+  cbn [run_op] in H. destruct (mt_call t s r dir e) as [s1 r1] eqn:HC.
+  destruct HR as (Hr & HI & HREL).
+  assert (HR1 : OpRel t (cl, op) n dir s1 r1).
+  { destruct HREL as [HA | (Hr0 & Hd & Hf & HB)].
+    - destruct (call_step t s r dir e s1 r1 Ht HI ltac:(lia) HC) as (HI1 & Hr1 & HX).
+      split; [lia|]. split; [exact HI1|].
+      destruct HX as [HA' | (Hr10 & Hd & Hf & HB')].
+      + left. rewrite HA', HA. rewrite sfeed_compose by lia. f_equal. lia.
+      + right. repeat split; try assumption. rewrite HB', HA. rewrite sfeed_compose by lia. do 2 f_equal. lia.
+    - subst r. destruct (call_idle t s dir e s1 r1 Ht HI Hf HC) as (Hr1 & Hf1 & HJ1 & HI1).
+      split; [lia|]. split; [exact HI1|]. right. repeat split; try assumption. rewrite HJ1. exact HB. }
+  destruct (op_done s1 r1 dir) eqn:HD.
+  - injection H as <- <-. unfold op_done in HD. apply andb_true_iff in HD as (HD0 & HD1).
+    apply Z.eqb_eq in HD0. subst r1. split; [exact HR1|]. unfold op_done. rewrite HD1. reflexivity.
+  - apply (IH s1 r1 s' rest Ht Hop HR1 H).
+Qed.
+
+Lemma op_post : forall t cl op n dir s, 0 < t -> 0 <= op -> 0 <= n ->
+  OpRel t (cl, op) n dir s 0 -> op_done s 0 dir = true ->
+  Inv1 t s /\ sfeed t (J s, 0) (filled s) = spec_op t (cl, op) (n, dir).
+Proof.
+  intros t cl op n dir s Ht Hop Hn (Hr & HI & HREL) HD. split; [exact HI|].
+  unfold spec_op. cbn [fst snd]. unfold op_done in HD. cbn [andb Z.eqb] in HD.
+  destruct (dir =? e_continue) eqn:HDC.
+  - apply Z.eqb_eq in HDC. destruct HREL as [HA | (_ & Hd & _)]; [|contradiction].
+    rewrite HA, Z.sub_0_r. reflexivity.
+  - cbn [orb] in HD. apply andb_true_iff in HD as (HD & _). apply andb_true_iff in HD as (_ & HF0).
+    apply Z.eqb_eq in HF0. rewrite HF0, sfeed_zero by lia.
+    destruct HREL as [HA | (_ & _ & _ & HB)]; [|exact HB].
+    rewrite HF0, sfeed_zero, Z.sub_0_r in HA by lia. rewrite <- HA. unfold sflush. cbn [fst snd]. reflexivity.
+Qed.
+
+Lemma spec_op_canon : forall t st o, 0 < t -> 0 <= snd st < t -> 0 <= fst o -> 0 <= snd (spec_op t st o) < t.
+Proof.
+  intros t [cl op] [n dir] Ht Hop Hn. unfold spec_op. cbn [fst snd] in *.
+  assert (HS : 0 <= snd (sfeed t (cl, op) n) < t) by (unfold sfeed; cbn [fst snd]; apply Z.mod_pos_bound; exact Ht).
+  destruct (dir =? e_continue); [exact HS|]. unfold sflush. destruct (snd (sfeed t (cl, op) n) >? 0); cbn [snd]; lia.
+Qed.
+
+Lemma run_ops_rel : forall t ops envs s st s', 0 < t -> Forall (fun o => 0 <= fst o) ops ->
+  Inv1 t s -> 0 <= snd st < t -> sfeed t (J s, 0) (filled s) = st ->
+  run_ops t s ops envs = Some s' ->
+  Inv1 t s' /\ sfeed t (J s', 0) (filled s') = fold_left (spec_op t) ops st.
+Proof.
+  intros t ops. induction ops as [|[n dir] ops IH]; intros envs s st s' Ht HN HI Hst HREL H.
+  - injection H as <-. split; assumption.
+  - cbn [run_ops] in H. destruct (run_op t s n dir envs) as [[s1 rest]|] eqn:HO; [|discriminate].
+    destruct st as [cl op]. cbn [snd] in Hst.
+    assert (Hn : 0 <= n) by (inversion HN as [|? ? Hn0 HN0]; exact Hn0).
+    assert (HN' : Forall (fun o => 0 <= fst o) ops) by (inversion HN as [|? ? Hn0 HN0]; exact HN0).
+    assert (HR0 : OpRel t (cl, op) n dir s n).
+    { split; [lia|]. split; [exact HI|]. left. rewrite HREL, Z.sub_diag.
+      unfold sfeed. cbn [fst snd]. rewrite Z.add_0_r, Z.div_small, Z.mod_small by lia. cbn. rewrite app_nil_r. reflexivity. }
+    destruct (run_op_rel t envs cl op n dir s n s1 rest Ht ltac:(lia) HR0 HO) as (HR1 & HD1).
+    destruct (op_post t cl op n dir s1 Ht ltac:(lia) Hn HR1 HD1) as (HI1 & HP1).
+    cbn [fold_left]. apply (IH rest s1 (spec_op t (cl, op) (n, dir)) s' Ht HN' HI1).
+    + apply spec_op_canon; cbn [fst snd]; lia.
+    + exact HP1.
+    + exact H.
+Qed.
+
+Lemma Inv1_init : forall t, 0 < t -> Inv1 t mt_init.
+Proof. intros. unfold Inv1, mt_init; cbn. split; [lia | reflexivity]. Qed.
+
+(* MAIN THEOREM (job boundaries).  For every schedule - every sequence of answers to "is an input buffer available",
+   "is the jobs table full", "does the pool accept the job" - under which the caller's input calls complete, the
+   non-empty jobs are exactly the greedy sections of the input: a function of the byte counts of the input calls,
+   their directives and targetSectionSize.  No worker count appears anywhere. *)
+Theorem mt_partition_schedule_independent : forall t ops envs s',
+  0 < t -> Forall (fun o => 0 <= fst o) ops ->
+  run_ops t mt_init ops envs = Some s' ->
+  sfeed t (J s', 0) (filled s') = spec_sections t ops.
+Proof.
+  intros t ops envs s' Ht HN H.
+  apply (run_ops_rel t ops envs mt_init ([], 0) s' Ht HN (Inv1_init t Ht)); [cbn; lia | | exact H].
+  unfold J, mt_init. cbn [jobs filled nonempty_sizes map filter]. apply sfeed_zero. exact Ht.
+Qed.
+
+Corollary mt_two_schedules : forall t ops envs1 envs2 s1 s2,
+  0 < t -> Forall (fun o => 0 <= fst o) ops ->
+  run_ops t mt_init ops envs1 = Some s1 -> run_ops t mt_init ops envs2 = Some s2 ->
+  filled s1 = 0 -> filled s2 = 0 ->
+  nonempty_sizes (jobs s1) = nonempty_sizes (jobs s2).
+Proof.
+  intros t ops envs1 envs2 s1 s2 Ht HN H1 H2 HF1 HF2.
+  pose proof (mt_partition_schedule_independent t ops envs1 s1 Ht HN H1) as E1.
+  pose proof (mt_partition_schedule_independent t ops envs2 s2 Ht HN H2) as E2.
+  rewrite HF1, sfeed_zero in E1 by lia. rewrite HF2, sfeed_zero in E2 by lia.
+  unfold J in *. congruence.
+Qed.
+
+(* The LAST flag is NOT schedule independent (finding "mt-jobtable-full-last-job"): a full jobs table at the moment
+   the buffer becomes exactly full, followed by an end directive without input, turns the pending section into the
+   last job; otherwise it is an ordinary job and the end directive adds an empty last job. *)
+Example mt_last_flag_schedule_dependent :
+  let ops := [(8, e_continue); (0, e_end)] in
+  let ok := mkEnv true false true in
+  let full := mkEnv true true true in
+  option_map (fun s => map (fun j => (j_size j, j_last j)) (jobs s)) (run_ops 8 mt_init ops [ok; ok; ok]) = Some [(8, false); (0, true)] /\
+  option_map (fun s => map (fun j => (j_size j, j_last j)) (jobs s)) (run_ops 8 mt_init ops [full; ok; ok]) = Some [(8, true)].
+Proof. vm_compute. split; reflexivity. Qed.
+
+Example mt_partition_example :
+  let ops := [(5, e_continue); (20, e_continue); (3, e_flush); (7, e_end)] in
+  spec_sections 8 ops = ([8; 8; 8; 4; 7], 0) /\
+  option_map (fun s => nonempty_sizes (jobs s))
+             (run_ops 8 mt_init ops (repeat (mkEnv false true false) 3 ++ [mkEnv true false false; mkEnv true true true] ++
+                                     repeat (mkEnv true false true) 20)) = Some [8; 8; 8; 4; 7].
+Proof. vm_compute. split; reflexivity. Qed.
+
+(* ---------- in-order flush: the stream handed to the caller ---------- *)
+Lemma firstn_add_skipn : forall (A : Type) (l : list A) p n, firstn (p + n) l = firstn p l ++ firstn n (skipn p l).
+Proof.
+  intros A l. induction l as [|x t IH]; intros p n.
+  - rewrite !firstn_nil, skipn_nil, firstn_nil. reflexivity.
+  - destruct p as [|p]; [reflexivity|]. cbn [Nat.add firstn skipn app]. rewrite IH. reflexivity.
+Qed.
+
+Lemma concat_firstn_S : forall (A : Type) (outs : list (list A)) d o, nth_error outs d = Some o ->
+  concat (firstn (S d) outs) = concat (firstn d outs) ++ o.
+Proof.
+  intros A outs. induction outs as [|x t IH]; intros d o H; [destruct d; discriminate|].
+  destruct d as [|d].
+  - cbn in H. injection H as ->. cbn. rewrite app_nil_r. reflexivity.
+  - cbn [nth_error] in H. rewrite (firstn_cons (S d) x t), (firstn_cons d x t). cbn [concat].
+    rewrite (IH d o H). rewrite app_assoc. reflexivity.
+Qed.
+
+Definition FInv (outs : list (list Z)) (s : fl) : Prop :=
+  fout s = concat (firstn (fdone s) outs) ++ firstn (fpos s) (nth (fdone s) outs []).
+
+Lemma fstep_inv : forall outs s e, FInv outs s -> FInv outs (fstep outs s e).
+Proof.
+  intros outs s e HI. destruct e as [j k|cap]; cbn [fstep]; [exact HI|].
+  destruct (nth_error outs (fdone s)) as [o|] eqn:HO; [|exact HI].
+  destruct (nth_error (produced s) (fdone s)) as [p|] eqn:HP; [|exact HI].
+  assert (HN : nth (fdone s) outs [] = o) by (apply nth_error_nth; exact HO).
+  unfold FInv in *. rewrite HN in HI.
+  destruct ((fpos s + Nat.min (p - fpos s) cap =? length o)%nat && (p =? length o)%nat) eqn:HC; cbn [fout fdone fpos].
+  - apply andb_true_iff in HC as (HC & _). apply Nat.eqb_eq in HC.
+    rewrite HI, <- app_assoc, <- firstn_add_skipn, HC, firstn_all.
+    rewrite (concat_firstn_S _ outs (fdone s) o HO). cbn [firstn]. rewrite app_nil_r. reflexivity.
+  - rewrite HI, <- app_assoc, <- firstn_add_skipn, HN. reflexivity.
+Qed.
+
+(* MAIN THEOREM (in-order flush).  Whatever the interleaving of worker progress and flush attempts and whatever the
+   output capacities, what the caller has received is the concatenation of the complete outputs of the jobs already
+   released, followed by a prefix of the output of the job being flushed: a prefix of the in-order concatenation;
+   and it IS that concatenation once every job has been released. *)
+Theorem flush_in_order : forall outs evs,
+  let s := frun outs evs in
+  fout s = concat (firstn (fdone s) outs) ++ firstn (fpos s) (nth (fdone s) outs []).
+Proof.
+  intros outs evs. cbn zeta. unfold frun.
+  assert (H : forall evs s, FInv outs s -> FInv outs (fold_left (fstep outs) evs s)).
+  { induction evs0 as [|e t IH]; intros s HI; [exact HI|]. cbn [fold_left]. apply IH. apply fstep_inv. exact HI. }
+  apply H. unfold FInv, fl_init. cbn. reflexivity.
+Qed.
+
+Corollary flush_complete : forall outs evs, fdone (frun outs evs) = length outs -> fout (frun outs evs) = concat outs.
+Proof.
+  intros outs evs H. rewrite (flush_in_order outs evs). cbn zeta. rewrite H, firstn_all.
+  rewrite nth_overflow by lia. rewrite firstn_nil, app_nil_r. reflexivity.
+Qed.
+
+(* two executions whose job lists agree deliver the same bytes, whatever the worker timing and output capacities;
+   [cj] = the (unmodelled) compression of one job, a function of the job description and its data only *)
+Theorem mt_output_schedule_independent : forall (cj : job -> list Z) (jobs1 jobs2 : list job) evs1 evs2,
+  jobs1 = jobs2 ->
+  fdone (frun (map cj jobs1) evs1) = length jobs1 -> fdone (frun (map cj jobs2) evs2) = length jobs2 ->
+  fout (frun (map cj jobs1) evs1) = fout (frun (map cj jobs2) evs2).
+Proof.
+  intros cj jobs1 jobs2 evs1 evs2 -> H1 H2.
+  rewrite (flush_complete _ evs1) by (rewrite map_length; exact H1).
+  rewrite (flush_complete _ evs2) by (rewrite map_length; exact H2). reflexivity.
+Qed.
+
+Example flush_example :
+  let outs := [[1; 2; 3]; []; [4; 5]] in
+  fout (frun outs [Flush 9; Produce 2 2; Produce 0 2; Flush 1; Flush 5; Produce 0 1; Flush 1; Flush 7; Flush 1; Flush 1]) = [1; 2; 3; 4; 5].
+Proof. vm_compute. reflexivity. Qed.
